@@ -106,7 +106,7 @@ ApplyWord(rows, u) == IF u = <<>> THEN rows ELSE ApplyWord(MatMul(rows, T[Head(u
 (* Classes                                                                 *)
 (***************************************************************************)
 ProjClasses == {"Point", "PointPair", "Polygon", "Transformation"}
-HypClasses == {"HPoint", "Geodesic", "Segment", "Tangent", "HPolygon", "Isometry", "Horosphere", "HoroArc"}
+HypClasses == {"HPoint", "Geodesic", "Segment", "Tangent", "HPolygon", "Isometry", "Horosphere", "HoroArc", "Subspace"}
 Classes == ProjClasses \cup HypClasses
 HasDerived(c) == c \in {"Polygon", "HPolygon", "Segment", "Tangent"}
 \* whole-array projective scale (matrices) or one scale per row (tuples of points)
@@ -143,6 +143,8 @@ Base(c, i) ==
     [] c = "Geodesic" -> <<U[i], U[Cyc(i + 1)]>>
     [] c = "Segment" -> <<Add(Scale(2, U[i]), U[Cyc(i + 1)]), Add(U[i], Scale(3, U[Cyc(i + 1)]))>>
     [] c = "Tangent" -> <<P[i], W[i]>>
+    \* a geodesic subspace given by ideal points: a geodesic of the plane, a plane of 3-space (a hyperplane)
+    [] c = "Subspace" -> [j \in 1..Dim |-> U[Cyc(i + j - 1)]]
     [] c = "Horosphere" -> <<HU[i], HoroP1(i)>>            \* ideal centre, a point of the horosphere
     [] c = "HoroArc" -> <<HU[i], HoroP1(i), HoroP2(i)>>    \* ideal centre, the two end points of the arc
     [] c \in {"Polygon", "HPolygon"} -> [j \in 1..NV |-> P[Cyc(i + j - 1)]]
@@ -186,6 +188,10 @@ InDomain ==
     [] cls = "Tangent" -> TimeLike(rows[1]) /\ ~IsZero(TanDer(rows)[2])
     \* the centre is ideal, the points are in hyperbolic space, distinct, and lie on ONE horosphere based at the
     \* centre: <x, u>^2 / <x, x> is the same for both
+    \* independent ideal points (for three of them: some 3x3 minor does not vanish)
+    [] cls = "Subspace" -> /\ \A j \in 1..Dim : LightLike(rows[j])
+                           /\ \A j1, j2 \in 1..Dim : j1 # j2 => ~Parallel(rows[j1], rows[j2])
+                           /\ Dim = 3 => \E a, b, c \in 1..N : a < b /\ b < c /\ Det3(rows[1], rows[2], rows[3], a, b, c) # 0
     [] cls = "Horosphere" -> LightLike(rows[1]) /\ TimeLike(rows[2])
     [] cls = "HoroArc" -> /\ LightLike(rows[1]) /\ TimeLike(rows[2]) /\ TimeLike(rows[3]) /\ ~Parallel(rows[2], rows[3])
                           /\ Mink(rows[2], rows[1]) * Mink(rows[2], rows[1]) * Mink(rows[3], rows[3])
@@ -319,6 +325,13 @@ ASSUME \A i \in 1..Len(SL2C) :
          IN <<ad[1] - bc[1], ad[2] - bc[2]>> = <<1, 0>>
 ASSUME \A i, j \in 1..Len(SL2C) : i # j => SL2C[i] # SL2C[j]
 ASSUME PrintT("SL2C " \o ToJson(SL2C))
+\* conversions between classes: C2(object of C1) keeps the primary data of the object and nothing else - it is
+\* what C2 builds from that data (no derived data for a class that has none)
+Converts == {<<"Segment", "Geodesic">>, <<"Segment", "Subspace">>, <<"Geodesic", "Subspace">>, <<"Geodesic", "Segment">>,
+             <<"HPolygon", "HPoint">>, <<"Polygon", "Point">>, <<"Polygon", "PointPair">>, <<"Tangent", "Geodesic">>,
+             <<"HoroArc", "Horosphere">>, <<"Segment", "HPoint">>, <<"PointPair", "Polygon">>, <<"HPoint", "HPoint">>}
+ASSUME \A cv \in Converts : cv[1] \in Classes /\ cv[2] \in Classes
+ASSUME PrintT("CONVERTS " \o ToJson(Converts))
 ASSUME PrintT("GRAM " \o ToJson([dim |-> Dim, gram |-> Gram]))
 ASSUME PrintT("TRANS " \o ToJson([dim |-> Dim, trans |-> Trans]))
 ASSUME \A x \in 1..Len(RV) : LET v == RV[x] IN Mink(v, v) \in {1, 2} /\ \A i, j \in 1..N : (2 * Sig(i) * v[i] * v[j]) % Mink(v, v) = 0
